@@ -142,10 +142,12 @@ HARNESSES = {
         "fn": mask_vs_exec,
         "quick": [{"fixed": {"kind": "switched", "ns": n, "couple": True}, "timeout": 280} for n in range(4)]
         + [{"fixed": {"kind": "routed", "ns": 0, "couple": True, "fstate": 0, "via_env": True}, "timeout": 280}]
+        + [{"fixed": {"kind": "firewalled", "ns": 0, "svc_state": 0, "app_state": 0, "fstate": 0}, "timeout": 280}]
         + [{"fixed": {"kind": "switched", "ns": 0, "couple": True, "fstate": 0, "order": o, "svc_state": 0}, "timeout": 280} for o in ("desc", "shuffled")]
         + [{"fixed": {"kind": "switched", "ns": 0, "fstate": 0, "svc_state": 0, "rt_install": True}, "timeout": 280}],
         "thorough": [{"fixed": {"kind": k, "ns": n, "fstate": f}, "timeout": 1500} for k in ("switched", "routed") for n in range(4) for f in range(3)]
-        + [{"fixed": {"kind": "routed", "ns": n, "fstate": 0, "order": o}, "timeout": 1500} for n in (0, 2) for o in ("desc", "shuffled")],
+        + [{"fixed": {"kind": "routed", "ns": n, "fstate": 0, "order": o}, "timeout": 1500} for n in (0, 2) for o in ("desc", "shuffled")]
+        + [{"fixed": {"kind": "firewalled", "ns": n, "fstate": 0, "couple": True}, "timeout": 1500} for n in range(4)],
         "cover": ["reached", "turned_away"],
         "bounds": {
             "quick": "every entry of the action map (54) x 4 power states x 6 coupled (service, application) states x NIC flag x 3 file states; routed topology (66 actions) with node ON through PrimaiteGymEnv.action_masks",
